@@ -90,6 +90,8 @@ Init0 == [ alive   |-> TRUE,      \* the io dispatcher is in its Processing stat
            nextH   |-> InitH,
            narr    |-> 0,
            closed  |-> FALSE,     \* the io was closed by the endpoint itself (sink.close()): later writes are dropped
+           peerGone |-> FALSE,    \* the peer closed its end: noticed only where the dispatcher reads (a paused read does
+                                  \* not see the end of the stream); what is written from now on is not observed
            rdy     |-> FALSE,     \* the pending readiness future has already obtained the readiness of the inner
                                   \* service (join in InFlightServiceImpl::ready) and only waits for the limiter
            ch      |-> 0,         \* scheduling choice of the current command (see Quiesce)
@@ -98,12 +100,12 @@ Init0 == [ alive   |-> TRUE,      \* the io dispatcher is in its Processing stat
 
 Emit(st, evs) == [st EXCEPT !.ev = @ \o evs]
 OutEv(r) == E("out", r.k, 0, r.id, 0, r.rc, 0, "")
-Write(st, r) == IF r.k = "NONE" \/ st.closed THEN st ELSE Emit(st, << OutEv(r) >>)
+Write(st, r) == IF r.k = "NONE" \/ st.closed \/ st.peerGone THEN st ELSE Emit(st, << OutEv(r) >>)
 
 \* MqttSink::close(): the v3 client writes DISCONNECT first; then the io is closed
 CloseSink(st) ==
   IF st.closed THEN st
-  ELSE [(IF Ver = 3 /\ Role = "client" THEN Emit(st, << E("out", "DISCONNECT", 0, 0, 0, 0, 0, "") >>) ELSE st)
+  ELSE [(IF Ver = 3 /\ Role = "client" /\ ~st.peerGone THEN Emit(st, << E("out", "DISCONNECT", 0, 0, 0, 0, 0, "") >>) ELSE st)
           EXCEPT !.closed = TRUE]
 \* MQTT 3.1.1 dispatchers close the sink when the control service fails (Inner::control, Err branch); the v3
 \* client routes publishes through the control service as well
@@ -262,8 +264,8 @@ Dispatch(st0, p) ==
               ELSE LET r == Resolve(s1, p) IN
                    IF r[1] THEN StartPub(r[2], n, q, id, r[3], p.plen) ELSE Viol(s1, r[4])
     [] p.kind = "pubrel" ->
-         \* (the v3 client accepts PUBREL for any identifier that is in flight, not only for an acknowledged QoS 2 publish)
-         IF p.id \in st.q2rec \/ (Ver = 3 /\ Role = "client" /\ p.id \in st.ids) THEN CtlArrive(st, n, "pubrel", p.id)
+         \* (the clients accept PUBREL for any identifier that is in flight, not only for an acknowledged QoS 2 publish)
+         IF p.id \in st.q2rec \/ (Role = "client" /\ p.id \in st.ids) THEN CtlArrive(st, n, "pubrel", p.id)
          ELSE IF Ver = 3 THEN Viol(st, 130)
          ELSE InCall(st, n, Resp("PUBCOMP", p.id, 146))
     [] p.kind \in {"sub", "unsub"} ->
@@ -331,7 +333,7 @@ Quiesce(st) ==
   ELSE IF st.rdy
     THEN IF st.closed THEN Stop(st, "stop_peer", -1)
          ELSE IF ~LimReady(st) THEN st
-         ELSE IF st.rbuf = << >> THEN Quiesce([st EXCEPT !.rdy = FALSE])
+         ELSE IF st.rbuf = << >> THEN (IF st.peerGone THEN Stop(st, "stop_peer", -1) ELSE Quiesce([st EXCEPT !.rdy = FALSE]))
          ELSE Quiesce(Read([st EXCEPT !.rdy = FALSE, !.rbuf = Tail(@)], Head(st.rbuf)))
   ELSE LET s1 == ReadyEff(st) IN
        IF ~s1.alive THEN s1
@@ -339,6 +341,9 @@ Quiesce(st) ==
        ELSE IF s1.nc = 2 THEN s1
        ELSE IF ~LimReady(s1) THEN [s1 EXCEPT !.rdy = TRUE]
        ELSE IF s1.rbuf # << >> THEN Quiesce(Read([s1 EXCEPT !.rbuf = Tail(@)], Head(s1.rbuf)))
+       ELSE IF s1.peerGone THEN Stop(s1, "stop_peer", -1)
+       \* (a released call that completed at once wakes the dispatcher again: the next parked call is released)
+       ELSE IF s1.nc = 0 /\ s1.ctlRun = 0 /\ s1.ctlBuf # << >> THEN Quiesce(s1)
        ELSE s1
 
 \* Shutdown (IoDispatcherState::Shutdown -> service.poll_shutdown): Dispatcher::shutdown closes the sink at once;
@@ -363,15 +368,14 @@ ShutStep(st) ==
 \* DISCONNECT it returned, the sink is closed and shutdown begins (a readiness future that was pending on a guard
 \* is dropped with the pipeline state: nobody waits for that call any more)
 StopArm(st) ==
-  \* (a call released by this readiness poll runs in its own task, i.e. after the dispatcher's poll: its events
-  \*  follow the ones of the Stop call)
-  LET r == IF st.rdy THEN [st EXCEPT !.ev = << >>] ELSE ReadyEff([st EXCEPT !.ev = << >>])
-      s1 == [r EXCEPT !.ev = st.ev \o (IF r.stopG THEN r.ev ELSE << >>)]
-  IN
-  IF s1.stopG THEN s1
-  ELSE LET s2 == Emit(s1, << E("ctl_done", "ok", s1.stopH, 0, 0, 0, 0, "") >> \o r.ev)
-           s3 == IF Ver = 5 /\ s2.stopRc >= 0 THEN Write(s2, Resp("DISCONNECT", 0, s2.stopRc)) ELSE s2
-       IN ShutStep([CloseSink(s3) EXCEPT !.phase = "shut", !.nc = IF @ = 2 THEN 0 ELSE @])
+  IF st.stopG
+    THEN IF st.rdy THEN st ELSE ReadyEff(st)
+    ELSE \* (a call released by this readiness poll runs in its own task, i.e. after the dispatcher's poll: by then the
+         \*  Stop call has been answered and the sink is closed)
+         LET s2 == Emit(st, << E("ctl_done", "ok", st.stopH, 0, 0, 0, 0, "") >>)
+             s3 == CloseSink(IF Ver = 5 /\ s2.stopRc >= 0 THEN Write(s2, Resp("DISCONNECT", 0, s2.stopRc)) ELSE s2)
+             s4 == IF s3.rdy THEN s3 ELSE ReadyEff(s3)
+         IN ShutStep([s4 EXCEPT !.phase = "shut", !.nc = IF @ = 2 THEN 0 ELSE @])
 
 \* run the connection's tasks to quiescence in whatever phase it is
 RECURSIVE Settle(_)
@@ -444,7 +448,7 @@ EndTok(st, k) == IF k = "raw" /\ ~CanRead(st) THEN "rawq" ELSE k
 DoEnd(st, k) ==
   LET mark == IF k = "raw" /\ ~CanRead(st) THEN E("nocause", "", 0, 0, 0, 0, 0, "")
               ELSE E("cause", IF k = "raw" THEN "stop_proto" ELSE "stop_peer", 0, 0, 0, 0, 0, "") IN
-  CASE k = "peer_close" -> Settle([Emit(st, << mark, E("peer_close", "", 0, 0, 0, 0, 0, "") >>) EXCEPT !.closed = TRUE])
+  CASE k = "peer_close" -> Settle([Emit(st, << mark, E("peer_close", "", 0, 0, 0, 0, 0, "") >>) EXCEPT !.peerGone = TRUE])
     [] k = "raw" -> Settle([Emit(st, << mark, E("in", "RESERVED", 0, 0, 0, 0, 0, "") >>)
                               EXCEPT !.rbuf = Append(@, [n |-> 0, kind |-> "raw", id |-> 0, q |-> 0, topic |-> "", alias |-> 0, plen |-> 0, sz |-> 0])])
     [] k = "close" ->
